@@ -86,8 +86,10 @@ Proof.
   { apply to_signed_wrap; [lia|]. unfold in_signed. change (32 - 1) with 31. lia. }
   destruct (negb have || (iv <=? since)); [|apply IH; exact Hok'].
   rewrite Hw. constructor; [apply IH; exact Hok'|].
-  pose proof (entries_are_starts iv bs true (wrap_s 32 (0 + rb_count b)) _ Hok') as Hin.
-  rewrite Forall_forall in Hin, Hlt. apply Forall_forall. intros e He. apply Hlt, Hin, He.
+  rewrite Forall_forall in Hlt. apply Forall_forall. intros e He. apply Hlt.
+  match type of He with In _ (index_entries _ _ ?h ?s ?p) =>
+    pose proof (entries_are_starts iv bs h s p Hok') as Hin end.
+  rewrite Forall_forall in Hin. apply Hin, He.
 Qed.
 
 Lemma c07_index_entries crc interval bs created a :
@@ -98,8 +100,9 @@ Lemma c07_index_entries crc interval bs created a :
   a_index a = index_bytes (if interval <=? 0 then 1 else interval) (a_entries a).
 Proof.
   intros Hb Hok. unfold build_segment in Hb. destruct bs as [|b0 rest]; [discriminate|].
-  destruct (existsb _ _); [discriminate|]. inversion Hb; subst; clear Hb. cbn [a_entries a_index].
-  split; [apply entries_sorted; exact Hok|]. split; [apply entries_are_starts; exact Hok|].
-  split; [|reflexivity]. exists b0, rest. split; [reflexivity|]. cbn [index_entries negb orb hd_error].
-  f_equal. f_equal. apply to_signed_wrap; [lia|]. unfold in_signed. change (32 - 1) with 31. lia.
+  destruct (existsb _ _); [discriminate|]. injection Hb as Ha. subst a. cbn [a_entries a_index].
+  set (iv := if interval <=? 0 then 1 else interval).
+  split; [exact (entries_sorted iv (b0 :: rest) false 0 32 Hok)|].
+  split; [exact (entries_are_starts iv (b0 :: rest) false 0 32 Hok)|].
+  split; [|reflexivity]. exists b0, rest. split; reflexivity.
 Qed.
